@@ -46,7 +46,7 @@ if '--no-confirm' not in sys.argv:
     res['confirmed'] = bool(r0 == 0 and r1 != 0 and suite_ok)
 # detection
 dst = '/tmp/seedcheck_' + name
-subprocess.run(['rsync', '-a', '--delete', '--exclude', 'target', '--exclude', '.git', '/repo/', dst + '/'], check=True)
+subprocess.run(['rsync', '-rlpgoD', '--checksum', '--delete', '--exclude', 'target', '--exclude', '.git', '/repo/', dst + '/'], check=True)
 rc, out = sh('git apply --unsafe-paths --directory=%s %s/patch.diff' % (dst, seed), '/')
 if rc != 0:
     rc, out = sh('patch -p1 -d %s < %s/patch.diff' % (dst, seed), '/')
